@@ -67,11 +67,12 @@ VARIABLES
   flags, kflags,   \* [chan -> set of boolean channel modes] truth / what the tracker can know (MODE changes seen, 324 reply)
   pendMode, pendWho,  \* requests of the tracker not yet answered by the server
   pendNick, \* a NICK request of the client not yet answered ("" none)
+  cloak,    \* the server now shows a different host for the client (a cloak / vhost applied after the welcome)
   trk,      \* state tracking currently enabled (Enable/DisableStateTracking may be called while on no channel)
   steps,
   lastOp
 
-state == <<phase, tried, snick, nick, mem, kn, uh, jn, topic, ktopic, key, kkey, lim, klim, flags, kflags, pendMode, pendWho, pendNick, trk, steps>>
+state == <<phase, tried, snick, nick, mem, kn, uh, jn, topic, ktopic, key, kkey, lim, klim, flags, kflags, pendMode, pendWho, pendNick, trk, cloak, steps>>
 vars == <<state, lastOp>>
 
 On == DOMAIN mem
@@ -84,7 +85,7 @@ Restr(f, S) == [x \in S |-> f[x]]
 Put(f, x, v) == [y \in DOMAIN f \cup {x} |-> IF y = x THEN v ELSE f[y]]
 Ren(f, o, n) == [x \in (DOMAIN f \ {o}) \cup {n} |-> IF x = n THEN f[o] ELSE f[x]]
 
-Src(n) == IF n = snick THEN ":" \o n \o "!" \o MyIdent \o "@" \o MyHost
+Src(n) == IF n = snick THEN ":" \o n \o "!" \o MyIdent \o "@" \o (IF cloak THEN "cloak.users.example.net" ELSE MyHost)
           ELSE ":" \o n \o "!" \o Ident(UserOf(n)) \o "@" \o Host(UserOf(n))
 Srv == ":irc.example.net"
 
@@ -100,7 +101,7 @@ Step == steps < MaxSteps /\ steps' = steps + 1
 Init ==
   /\ phase = "pre" /\ tried = Me0 /\ snick = "" /\ nick \in [Users -> NickPool] /\ (\A u, v \in Users : u # v => nick[u] # nick[v])
   /\ mem = <<>> /\ kn = <<>> /\ uh = {} /\ jn = {} /\ topic = <<>> /\ ktopic = <<>> /\ key = <<>> /\ kkey = <<>> /\ lim = <<>> /\ klim = <<>> /\ flags = <<>> /\ kflags = <<>>
-  /\ pendMode = {} /\ pendWho = {} /\ pendNick = "" /\ trk = TRUE /\ steps = 0
+  /\ pendMode = {} /\ pendWho = {} /\ pendNick = "" /\ trk = TRUE /\ cloak = FALSE /\ steps = 0
   /\ lastOp = [ev |-> "connect", lines |-> <<>>, expect |-> <<"NICK " \o Me0>>]
 
 -----------------------------------------------------------------------------
@@ -111,21 +112,21 @@ Collide ==
   /\ phase = "pre" /\ Step
   /\ tried' = NewNick(tried)
   /\ Op("collide", <<Srv \o " 433 * " \o tried \o " :Nickname is already in use.">>, <<"NICK " \o NewNick(tried)>>)
-  /\ UNCHANGED <<phase, snick, nick, mem, kn, uh, jn, topic, ktopic, key, kkey, lim, klim, flags, kflags, pendMode, pendWho, pendNick, trk>>
+  /\ UNCHANGED <<phase, snick, nick, mem, kn, uh, jn, topic, ktopic, key, kkey, lim, klim, flags, kflags, pendMode, pendWho, pendNick, trk, cloak>>
 
 \* 001: the server confirms the nick asked for, or imposes another one
 Welcome(n) ==
   /\ phase = "pre" /\ Step /\ n \notin {nick[u] : u \in Users}
   /\ phase' = "up" /\ snick' = n /\ tried' = n
   /\ Op("welcome", <<Srv \o " 001 " \o n \o " :Welcome to the Internet Relay Network " \o n \o "!" \o MyIdent \o "@" \o MyHost>>, <<>>)
-  /\ UNCHANGED <<nick, mem, kn, uh, jn, topic, ktopic, key, kkey, lim, klim, flags, kflags, pendMode, pendWho, pendNick, trk>>
+  /\ UNCHANGED <<nick, mem, kn, uh, jn, topic, ktopic, key, kkey, lim, klim, flags, kflags, pendMode, pendWho, pendNick, trk, cloak>>
 
 \* the client asks for another nick (the harness calls Nick(n)) ...
 ClientNick(n) ==
   /\ phase = "up" /\ pendNick = "" /\ Step /\ n # snick
   /\ pendNick' = n
   /\ Op("clientnick", <<>>, <<"NICK " \o n>>)
-  /\ UNCHANGED <<phase, tried, snick, nick, mem, kn, uh, jn, topic, ktopic, key, kkey, lim, klim, flags, kflags, pendMode, pendWho, trk>>
+  /\ UNCHANGED <<phase, tried, snick, nick, mem, kn, uh, jn, topic, ktopic, key, kkey, lim, klim, flags, kflags, pendMode, pendWho, trk, cloak>>
 \* ... the server confirms it ...
 MyRename(n) ==
   /\ mem' = [c \in On |-> IF snick \in NicksOf(c) THEN Ren(mem[c], snick, n) ELSE mem[c]]
@@ -135,20 +136,20 @@ NickConfirm ==
   /\ phase = "up" /\ pendNick # "" /\ pendNick \notin UsedNicks /\ Step
   /\ MyRename(pendNick) /\ pendNick' = ""
   /\ Op("nickconfirm", <<Src(snick) \o " NICK :" \o pendNick>>, <<>>)
-  /\ UNCHANGED <<phase, tried, nick, uh, jn, topic, ktopic, key, kkey, lim, klim, flags, kflags, pendMode, pendWho, trk>>
+  /\ UNCHANGED <<phase, tried, nick, uh, jn, topic, ktopic, key, kkey, lim, klim, flags, kflags, pendMode, pendWho, trk, cloak>>
 \* ... or refuses it: the client asks for NewNick(refused) next
 NickRefuse ==
   /\ phase = "up" /\ pendNick # "" /\ Step /\ NewNick(pendNick) # snick
   /\ pendNick' = NewNick(pendNick)
   /\ Op("nickrefuse", <<Srv \o " 433 " \o snick \o " " \o pendNick \o " :Nickname is already in use.">>, <<"NICK " \o NewNick(pendNick)>>)
-  /\ UNCHANGED <<phase, tried, snick, nick, mem, kn, uh, jn, topic, ktopic, key, kkey, lim, klim, flags, kflags, pendMode, pendWho, trk>>
+  /\ UNCHANGED <<phase, tried, snick, nick, mem, kn, uh, jn, topic, ktopic, key, kkey, lim, klim, flags, kflags, pendMode, pendWho, trk, cloak>>
 \* the server changes the client's nick on its own
 NickForce(n) ==
   /\ phase = "up" /\ n \notin UsedNicks /\ Step
   /\ n # pendNick     \* (a server does not impose the very nick it is about to refuse)
   /\ MyRename(n)
   /\ Op("nickforce", <<Src(snick) \o " NICK " \o n>>, <<>>)
-  /\ UNCHANGED <<phase, tried, nick, uh, jn, topic, ktopic, key, kkey, lim, klim, flags, kflags, pendMode, pendWho, pendNick, trk>>
+  /\ UNCHANGED <<phase, tried, nick, uh, jn, topic, ktopic, key, kkey, lim, klim, flags, kflags, pendMode, pendWho, pendNick, trk, cloak>>
 
 -----------------------------------------------------------------------------
 (* Channels (C13) *)
@@ -172,7 +173,7 @@ MeJoin(c, others, t, k) ==
                 \o (IF t = "" THEN <<>> ELSE <<Srv \o " 332 " \o snick \o " " \o c \o " :" \o t>>)
                 \o <<Srv \o " 353 " \o snick \o " = " \o c \o " :" \o names, Srv \o " 366 " \o snick \o " " \o c \o " :End of /NAMES list.">>,
               <<"MODE " \o c, "WHO " \o c>>)
-  /\ UNCHANGED <<phase, tried, snick, nick, uh, jn, pendNick, trk>>
+  /\ UNCHANGED <<phase, tried, snick, nick, uh, jn, pendNick, trk, cloak>>
 
 \* a NAMES reply at any later time (the user asked for it): the highest privilege of every member is shown again
 NamesRefresh(c) ==
@@ -181,7 +182,7 @@ NamesRefresh(c) ==
   /\ Op("namesrefresh",
         <<Srv \o " 353 " \o snick \o " = " \o c \o " :" \o JoinWith(SetToSeq({Prefix(mem[c][n]) \o n : n \in NicksOf(c)}), " "),
           Srv \o " 366 " \o snick \o " " \o c \o " :End of /NAMES list.">>, <<>>)
-  /\ UNCHANGED <<phase, tried, snick, nick, mem, uh, jn, topic, ktopic, key, kkey, lim, klim, flags, kflags, pendMode, pendWho, pendNick, trk>>
+  /\ UNCHANGED <<phase, tried, snick, nick, mem, uh, jn, topic, ktopic, key, kkey, lim, klim, flags, kflags, pendMode, pendWho, pendNick, trk, cloak>>
 
 \* the server answers MODE c with 324
 Reply324(c) ==
@@ -190,7 +191,7 @@ Reply324(c) ==
   /\ kflags' = [kflags EXCEPT ![c] = @ \cup flags[c]]
   /\ Op("reply324", <<Srv \o " 324 " \o snick \o " " \o c \o " +" \o FlagStr(flags[c]) \o (IF lim[c] > 0 THEN "l" ELSE "") \o (IF key[c] # "" THEN "k" ELSE "")
                       \o (IF lim[c] > 0 THEN " " \o ToString(lim[c]) ELSE "") \o (IF key[c] # "" THEN " " \o key[c] ELSE "")>>, <<>>)
-  /\ UNCHANGED <<phase, tried, snick, nick, mem, kn, uh, jn, topic, ktopic, key, lim, flags, pendWho, pendNick, trk>>
+  /\ UNCHANGED <<phase, tried, snick, nick, mem, kn, uh, jn, topic, ktopic, key, lim, flags, pendWho, pendNick, trk, cloak>>
 
 \* ... and WHO c with one 352 per member and a 315: user@host of every member is revealed
 ReplyWho(c) ==
@@ -202,7 +203,7 @@ ReplyWho(c) ==
                       THEN Srv \o " 352 " \o snick \o " " \o c \o " " \o MyIdent \o " " \o MyHost \o " irc.example.net " \o n \o " H :0 Real Name"
                       ELSE Srv \o " 352 " \o snick \o " " \o c \o " " \o Ident(UserOf(n)) \o " " \o Host(UserOf(n)) \o " irc.example.net " \o n \o " H" \o Prefix(mem[c][n]) \o " :0 " \o UserOf(n)
      IN Op("replywho", [i \in 1..Len(ms) |-> Line(ms[i])] \o <<Srv \o " 315 " \o snick \o " " \o c \o " :End of /WHO list.">>, <<>>)
-  /\ UNCHANGED <<phase, tried, snick, nick, mem, kn, topic, ktopic, key, kkey, lim, klim, flags, kflags, pendMode, pendNick, trk>>
+  /\ UNCHANGED <<phase, tried, snick, nick, mem, kn, topic, ktopic, key, kkey, lim, klim, flags, kflags, pendMode, pendNick, trk, cloak>>
 
 \* another user joins a channel the client is on (the tracker asks WHO nick when it is new)
 OtherJoin(u, c) ==
@@ -210,7 +211,7 @@ OtherJoin(u, c) ==
   /\ mem' = [mem EXCEPT ![c] = Put(@, nick[u], {})] /\ kn' = [kn EXCEPT ![c] = Put(@, nick[u], {})]
   /\ jn' = jn \cup {nick[u]} /\ uh' = uh
   /\ Op("otherjoin", <<Src(nick[u]) \o " JOIN :" \o c>>, IF Shares(nick[u]) THEN <<>> ELSE <<"WHO " \o nick[u]>>)
-  /\ UNCHANGED <<phase, tried, snick, nick, topic, ktopic, key, kkey, lim, klim, flags, kflags, pendMode, pendWho, pendNick, trk>>
+  /\ UNCHANGED <<phase, tried, snick, nick, topic, ktopic, key, kkey, lim, klim, flags, kflags, pendMode, pendWho, pendNick, trk, cloak>>
 
 Forget(S, n, m1) == IF \E c \in DOMAIN m1 : n \in DOMAIN m1[c] THEN S ELSE S \ {n}
 Leave(n, c) ==
@@ -221,18 +222,18 @@ Leave(n, c) ==
 OtherPart(u, c) ==
   /\ c \in On /\ nick[u] \in NicksOf(c) /\ Step /\ Leave(nick[u], c)
   /\ Op("otherpart", <<Src(nick[u]) \o " PART " \o c \o " :bye">>, <<>>)
-  /\ UNCHANGED <<phase, tried, snick, nick, topic, ktopic, key, kkey, lim, klim, flags, kflags, pendMode, pendWho, pendNick, trk>>
+  /\ UNCHANGED <<phase, tried, snick, nick, topic, ktopic, key, kkey, lim, klim, flags, kflags, pendMode, pendWho, pendNick, trk, cloak>>
 OtherKicked(u, c, by) ==
   /\ c \in On /\ nick[u] \in NicksOf(c) /\ by \in NicksOf(c) /\ Step /\ Leave(nick[u], c)
   /\ Op("otherkicked", <<Src(by) \o " KICK " \o c \o " " \o nick[u] \o " :out">>, <<>>)
-  /\ UNCHANGED <<phase, tried, snick, nick, topic, ktopic, key, kkey, lim, klim, flags, kflags, pendMode, pendWho, pendNick, trk>>
+  /\ UNCHANGED <<phase, tried, snick, nick, topic, ktopic, key, kkey, lim, klim, flags, kflags, pendMode, pendWho, pendNick, trk, cloak>>
 OtherQuit(u) ==
   /\ Shares(nick[u]) /\ Step
   /\ mem' = [c \in On |-> Restr(mem[c], NicksOf(c) \ {nick[u]})]
   /\ kn' = [c \in On |-> Restr(kn[c], NicksOf(c) \ {nick[u]})]
   /\ uh' = uh \ {nick[u]} /\ jn' = jn \ {nick[u]}
   /\ Op("otherquit", <<Src(nick[u]) \o " QUIT :Quit: gone">>, <<>>)
-  /\ UNCHANGED <<phase, tried, snick, nick, topic, ktopic, key, kkey, lim, klim, flags, kflags, pendMode, pendWho, pendNick, trk>>
+  /\ UNCHANGED <<phase, tried, snick, nick, topic, ktopic, key, kkey, lim, klim, flags, kflags, pendMode, pendWho, pendNick, trk, cloak>>
 \* a user the client can see changes nick
 OtherNick(u, n) ==
   /\ Shares(nick[u]) /\ n \in NickPool /\ n \notin UsedNicks /\ Step
@@ -242,13 +243,13 @@ OtherNick(u, n) ==
   /\ uh' = IF nick[u] \in uh THEN (uh \ {nick[u]}) \cup {n} ELSE uh
   /\ jn' = IF nick[u] \in jn THEN (jn \ {nick[u]}) \cup {n} ELSE jn
   /\ Op("othernick", <<Src(nick[u]) \o " NICK :" \o n>>, <<>>)
-  /\ UNCHANGED <<phase, tried, snick, topic, ktopic, key, kkey, lim, klim, flags, kflags, pendMode, pendWho, pendNick, trk>>
+  /\ UNCHANGED <<phase, tried, snick, topic, ktopic, key, kkey, lim, klim, flags, kflags, pendMode, pendWho, pendNick, trk, cloak>>
 \* a user the client cannot see changes nick: nothing is sent
 HiddenNick(u, n) ==
   /\ ~Shares(nick[u]) /\ phase = "up" /\ n \in NickPool /\ n \notin UsedNicks /\ n # pendNick /\ Step
   /\ nick' = [nick EXCEPT ![u] = n]
   /\ Op("hiddennick", <<>>, <<>>)
-  /\ UNCHANGED <<phase, tried, snick, mem, kn, uh, jn, topic, ktopic, key, kkey, lim, klim, flags, kflags, pendMode, pendWho, pendNick, trk>>
+  /\ UNCHANGED <<phase, tried, snick, mem, kn, uh, jn, topic, ktopic, key, kkey, lim, klim, flags, kflags, pendMode, pendWho, pendNick, trk, cloak>>
 
 \* the client leaves or is kicked: the channel and every user no longer shared are forgotten
 DropChan(c) ==
@@ -264,11 +265,11 @@ DropChan(c) ==
 MePart(c) ==
   /\ c \in On /\ Step /\ DropChan(c)
   /\ Op("mepart", <<Src(snick) \o " PART " \o c>>, <<>>)
-  /\ UNCHANGED <<phase, tried, snick, nick, pendNick, trk>>
+  /\ UNCHANGED <<phase, tried, snick, nick, pendNick, trk, cloak>>
 MeKicked(c, by) ==
   /\ c \in On /\ by \in NicksOf(c) \ {snick} /\ Step /\ DropChan(c)
   /\ Op("mekicked", <<Src(by) \o " KICK " \o c \o " " \o snick \o " :you">>, <<>>)
-  /\ UNCHANGED <<phase, tried, snick, nick, pendNick, trk>>
+  /\ UNCHANGED <<phase, tried, snick, nick, pendNick, trk, cloak>>
 
 \* privilege and mode changes, topic changes
 PrivChange(c, n, sign, p, by) ==
@@ -276,14 +277,14 @@ PrivChange(c, n, sign, p, by) ==
   /\ mem' = [mem EXCEPT ![c][n] = IF sign = "+" THEN @ \cup {p} ELSE @ \ {p}]
   /\ kn' = [kn EXCEPT ![c][n] = IF sign = "+" THEN @ \cup {p} ELSE @ \ {p}]
   /\ Op("privchange", <<Src(by) \o " MODE " \o c \o " " \o sign \o p \o " " \o n>>, <<>>)
-  /\ UNCHANGED <<phase, tried, snick, nick, uh, jn, topic, ktopic, key, kkey, lim, klim, flags, kflags, pendMode, pendWho, pendNick, trk>>
+  /\ UNCHANGED <<phase, tried, snick, nick, uh, jn, topic, ktopic, key, kkey, lim, klim, flags, kflags, pendMode, pendWho, pendNick, trk, cloak>>
 \* two changes in one MODE line (argument-taking modes in sequence; a key removal comes last)
 DoubleChange(c, n, k, by) ==
   /\ c \in On /\ n \in NicksOf(c) /\ by \in NicksOf(c) /\ Step
   /\ mem' = [mem EXCEPT ![c][n] = @ \cup {"v"}] /\ kn' = [kn EXCEPT ![c][n] = @ \cup {"v"}]
   /\ key' = [key EXCEPT ![c] = k] /\ kkey' = [kkey EXCEPT ![c] = k]
   /\ Op("doublechange", <<Src(by) \o (IF k = "" THEN " MODE " \o c \o " +v-k " \o n ELSE " MODE " \o c \o " +kv " \o k \o " " \o n)>>, <<>>)
-  /\ UNCHANGED <<phase, tried, snick, nick, uh, jn, topic, ktopic, lim, klim, flags, kflags, pendMode, pendWho, pendNick, trk>>
+  /\ UNCHANGED <<phase, tried, snick, nick, uh, jn, topic, ktopic, lim, klim, flags, kflags, pendMode, pendWho, pendNick, trk, cloak>>
 \* a limit and a privilege in one line (the limit's argument comes first), or the limit removed
 LimitChange(c, n, L, by) ==
   /\ c \in On /\ n \in NicksOf(c) /\ by \in NicksOf(c) /\ Step
@@ -291,19 +292,19 @@ LimitChange(c, n, L, by) ==
   /\ IF L > 0 THEN /\ mem' = [mem EXCEPT ![c][n] = @ \cup {"o"}] /\ kn' = [kn EXCEPT ![c][n] = @ \cup {"o"}]
               ELSE UNCHANGED <<mem, kn>>
   /\ Op("limitchange", <<Src(by) \o (IF L > 0 THEN " MODE " \o c \o " +lo " \o ToString(L) \o " " \o n ELSE " MODE " \o c \o " -l")>>, <<>>)
-  /\ UNCHANGED <<phase, tried, snick, nick, uh, jn, topic, ktopic, key, kkey, flags, kflags, pendMode, pendWho, pendNick, trk>>
+  /\ UNCHANGED <<phase, tried, snick, nick, uh, jn, topic, ktopic, key, kkey, flags, kflags, pendMode, pendWho, pendNick, trk, cloak>>
 TopicChange(c, t, by) ==
   /\ c \in On /\ by \in NicksOf(c) /\ t # topic[c] /\ Step
   /\ topic' = [topic EXCEPT ![c] = t] /\ ktopic' = [ktopic EXCEPT ![c] = t]
   /\ Op("topicchange", <<Src(by) \o " TOPIC " \o c \o " :" \o t>>, <<>>)
-  /\ UNCHANGED <<phase, tried, snick, nick, mem, kn, uh, jn, key, kkey, lim, klim, flags, kflags, pendMode, pendWho, pendNick, trk>>
+  /\ UNCHANGED <<phase, tried, snick, nick, mem, kn, uh, jn, key, kkey, lim, klim, flags, kflags, pendMode, pendWho, pendNick, trk, cloak>>
 
 \* boolean channel modes: one, or one set and another cleared in the same line
 FlagChange(c, f, g, by) ==
   /\ c \in On /\ by \in NicksOf(c) /\ Step /\ f \in FlagSet /\ g \in FlagSet \cup {""} /\ g # f
   /\ flags' = [flags EXCEPT ![c] = (@ \cup {f}) \ {g}] /\ kflags' = [kflags EXCEPT ![c] = (@ \cup {f}) \ {g}]
   /\ Op("flagchange", <<Src(by) \o " MODE " \o c \o " +" \o f \o (IF g = "" THEN "" ELSE "-" \o g)>>, <<>>)
-  /\ UNCHANGED <<phase, tried, snick, nick, mem, kn, uh, jn, topic, ktopic, key, kkey, lim, klim, pendMode, pendWho, pendNick, trk>>
+  /\ UNCHANGED <<phase, tried, snick, nick, mem, kn, uh, jn, topic, ktopic, key, kkey, lim, klim, pendMode, pendWho, pendNick, trk, cloak>>
 \* a list mode (ban, ban exception, invite exception: they take a mask) and a privilege in one line:
 \* the mask belongs to the list mode, the nick to the privilege.  Lists are not tracked.
 ListChange(c, n, L, sign, by) ==
@@ -311,23 +312,29 @@ ListChange(c, n, L, sign, by) ==
   /\ LET p == IF sign = "+" THEN "o" ELSE "v" IN
        /\ mem' = [mem EXCEPT ![c][n] = @ \cup {p}] /\ kn' = [kn EXCEPT ![c][n] = @ \cup {p}]
        /\ Op("listchange", <<Src(by) \o " MODE " \o c \o " " \o sign \o L \o "+" \o p \o " *!*@bad.example.org " \o n>>, <<>>)
-  /\ UNCHANGED <<phase, tried, snick, nick, uh, jn, topic, ktopic, key, kkey, lim, klim, flags, kflags, pendMode, pendWho, pendNick, trk>>
+  /\ UNCHANGED <<phase, tried, snick, nick, uh, jn, topic, ktopic, key, kkey, lim, klim, flags, kflags, pendMode, pendWho, pendNick, trk, cloak>>
 
 \* DisableStateTracking / EnableStateTracking in mid-session ("at a pinch while the client is not joined to
 \* any channels"): the client keeps knowing its own nick, a re-enabled tracker starts from the current nick
 AllowToggle == FALSE      \* (overridden by the configurations that exercise it)
+\* the server hides the client's host after registration (396): from now on the client's own lines carry the cloak
+Cloak ==
+  /\ AllowToggle /\ phase = "up" /\ ~cloak /\ Step
+  /\ cloak' = TRUE
+  /\ Op("cloak", <<Srv \o " 396 " \o snick \o " cloak.users.example.net :is now your displayed host">>, <<>>)
+  /\ UNCHANGED <<phase, tried, snick, nick, mem, kn, uh, jn, topic, ktopic, key, kkey, lim, klim, flags, kflags, pendMode, pendWho, pendNick, trk>>
 TrackOff ==
   /\ AllowToggle /\ trk /\ On = {} /\ Step
   /\ trk' = FALSE /\ Op("trackoff", <<>>, <<>>)
-  /\ UNCHANGED <<phase, tried, snick, nick, mem, kn, uh, jn, topic, ktopic, key, kkey, lim, klim, flags, kflags, pendMode, pendWho, pendNick>>
+  /\ UNCHANGED <<phase, tried, snick, nick, mem, kn, uh, jn, topic, ktopic, key, kkey, lim, klim, flags, kflags, pendMode, pendWho, pendNick, cloak>>
 TrackOn ==
   /\ AllowToggle /\ ~trk /\ On = {} /\ Step
   /\ trk' = TRUE /\ Op("trackon", <<>>, <<>>)
-  /\ UNCHANGED <<phase, tried, snick, nick, mem, kn, uh, jn, topic, ktopic, key, kkey, lim, klim, flags, kflags, pendMode, pendWho, pendNick>>
+  /\ UNCHANGED <<phase, tried, snick, nick, mem, kn, uh, jn, topic, ktopic, key, kkey, lim, klim, flags, kflags, pendMode, pendWho, pendNick, cloak>>
 
 PrivSets == {{}, {"o"}, {"v"}, {"o", "v"}}
 Next ==
-  \/ Collide \/ NickConfirm \/ NickRefuse \/ TrackOff \/ TrackOn
+  \/ Collide \/ NickConfirm \/ NickRefuse \/ TrackOff \/ TrackOn \/ Cloak
   \/ \E n \in MyNicks \cup {tried} : Welcome(n)
   \/ \E n \in MyNicks : ClientNick(n) \/ NickForce(n)
   \/ \E c \in Chans, S \in SUBSET Users : \E ps \in [S -> PrivSets] :
